@@ -418,4 +418,71 @@ def denote (s : Cps) : Option Den :=
     else if c = cMinus then denoteAfterSign true t
     else denoteAfterSign false s
 
+
+/-! ## what a written string / URL denotes (specification side: CSS 2.1 §4.1.3, §4.3.4, §4.3.7) -/
+
+def isCssSpace (c : Nat) : Bool := c = 0x20 || c = 0x09 || c = 0x0A || c = 0x0D || c = 0x0C
+
+def hexDigitVal (c : Nat) : Nat :=
+  if 0x30 ≤ c ∧ c ≤ 0x39 then c - 0x30 else if 0x41 ≤ c ∧ c ≤ 0x46 then c - 0x41 + 10 else c - 0x61 + 10
+
+/-- up to `k` hex digits at the front: (value so far, rest) -/
+def takeHex : Nat → Nat → Cps → Nat × Cps
+  | 0, acc, s => (acc, s)
+  | k + 1, acc, c :: t => if isHexDigit c then takeHex k (acc * 16 + hexDigitVal c) t else (acc, c :: t)
+  | _ + 1, acc, [] => (acc, [])
+
+/-- one optional white space after a hex escape (CR LF counts as one) -/
+def skipEscSpace : Cps → Cps
+  | 0x0D :: 0x0A :: t => t
+  | c :: t => if isCssSpace c then t else c :: t
+  | [] => []
+
+/-- the characters between the quotes of a string token whose quote is `q`; the closing quote must be the last
+character. `none`: not one complete string (early closing quote, raw line break, unterminated). -/
+def stringBodyDenote (q : Nat) : Nat → Cps → Option Cps
+  | 0, _ => none
+  | _ + 1, [] => none
+  | fuel + 1, c :: t =>
+    if c = q then (if t.isEmpty then some [] else none)
+    else if c = 0x0A ∨ c = 0x0D ∨ c = 0x0C then none
+    else if c = cBackslash then
+      match t with
+      | [] => none
+      | d :: t' =>
+        if isHexDigit d then
+          let r := takeHex 6 0 t
+          (stringBodyDenote q fuel (skipEscSpace r.2)).map (r.1 :: ·)
+        else if d = 0x0D then        -- line continuation
+          stringBodyDenote q fuel (match t' with | 0x0A :: t'' => t'' | _ => t')
+        else if d = 0x0A ∨ d = 0x0C then stringBodyDenote q fuel t'
+        else (stringBodyDenote q fuel t').map (d :: ·)
+    else (stringBodyDenote q fuel t).map (c :: ·)
+
+/-- what a string token text denotes -/
+def cssStringDenote (s : Cps) : Option Cps :=
+  match s with
+  | q :: t => if q = cQuote ∨ q = cApos then stringBodyDenote q (t.length + 1) t else none
+  | [] => none
+
+/-- what a stored value (token value: hex escapes resolved, simple escapes kept) stands for -/
+def storedDenote : Cps → Cps
+  | [] => []
+  | [c] => [c]
+  | c :: d :: t => if c = cBackslash then d :: storedDenote t else c :: storedDenote (d :: t)
+
+/-- characters the tokenizer accepts raw in an unquoted `url()` (`cssproductions.py` macro `url`) -/
+def isUrlChar (c : Nat) : Bool :=
+  c = 0x09 || c = 0x21 || (0x23 ≤ c && c ≤ 0x26) || c = 0x28 || (0x2A ≤ c && c ≤ 0x7E) || c ≥ 0x80
+
+/-- a written `url(...)` is readable: quoted with a complete string inside, or unquoted with URL characters only -/
+def writtenUrlDenote (s : Cps) : Option Cps :=
+  if (cps "url(").isPrefixOf s ∧ s.getLast? = some 0x29 then
+    let inner := (s.drop 4).dropLast
+    match inner with
+    | q :: _ => if q = cQuote then cssStringDenote inner
+                else if inner.all isUrlChar then some (storedDenote inner) else none
+    | [] => some []
+  else none
+
 end CssVerif.Num
